@@ -42,7 +42,7 @@ def cases(draw):
     # a server may answer the share query and then fail every later read (its shares can then not be verified), or fail from the j-th read on / drop the connection
     faults = draw(st.lists(st.tuples(st.integers(0, n - 1), st.sampled_from(["fail-reads-from", "fail-reads-from", "disconnect-after"]), st.sampled_from([0, 0, 1, 3, 8])).map(list), max_size=1)) \
         if draw(st.integers(0, 3)) == 0 else []
-    return {"k": k, "n": n, "seg": seg, "size": size, "servers": servers, "place": [[i, i] for i in range(n)], "damage": damage, "faults": faults,
+    return {"hsalt": draw(st.integers(0, 15)), "k": k, "n": n, "seg": seg, "size": size, "servers": servers, "place": [[i, i] for i in range(n)], "damage": damage, "faults": faults,
             "verify": draw(st.booleans()), "sched": draw(st.lists(st.integers(0, 9), max_size=30))}
 
 
